@@ -1,0 +1,102 @@
+//go:build verif
+
+// Contracts for score.go / score_params.go (property C10). float64 is modelled as real.
+// Comment-only.
+
+package pubsub
+
+// ---- the GossipSub v1.1 scoring function as a specification ----
+
+//@ spec fn p1(ts *topicStats, tp *TopicScoreParams) real = ite(ts.inMesh && tp.TimeInMeshWeight != 0.0,
+//@      ite(real(ts.meshTime / tp.TimeInMeshQuantum) > tp.TimeInMeshCap, tp.TimeInMeshCap, real(ts.meshTime / tp.TimeInMeshQuantum)) * tp.TimeInMeshWeight, 0.0)
+//@ spec fn p2(ts *topicStats, tp *TopicScoreParams) real = ts.firstMessageDeliveries * tp.FirstMessageDeliveriesWeight
+//@ spec fn p3(ts *topicStats, tp *TopicScoreParams) real = ite(ts.meshMessageDeliveriesActive && ts.meshMessageDeliveries < tp.MeshMessageDeliveriesThreshold,
+//@      (tp.MeshMessageDeliveriesThreshold - ts.meshMessageDeliveries) * (tp.MeshMessageDeliveriesThreshold - ts.meshMessageDeliveries) * tp.MeshMessageDeliveriesWeight, 0.0)
+//@ spec fn p3b(ts *topicStats, tp *TopicScoreParams) real = ts.meshFailurePenalty * tp.MeshFailurePenaltyWeight
+//@ spec fn p4(ts *topicStats, tp *TopicScoreParams) real = ts.invalidMessageDeliveries * ts.invalidMessageDeliveries * tp.InvalidMessageDeliveriesWeight
+//@ spec fn topicTerm(ts *topicStats, tp *TopicScoreParams) real = (p1(ts, tp) + p2(ts, tp) + p3(ts, tp) + p3b(ts, tp) + p4(ts, tp)) * tp.TopicWeight
+//@ spec fn p7(st *peerStats, pp *PeerScoreParams) real = ite(st.behaviourPenalty > pp.BehaviourPenaltyThreshold,
+//@      (st.behaviourPenalty - pp.BehaviourPenaltyThreshold) * (st.behaviourPenalty - pp.BehaviourPenaltyThreshold) * pp.BehaviourPenaltyWeight, 0.0)
+//@ spec fn capTopics(x real, pp *PeerScoreParams) real = ite(pp.TopicScoreCap > 0.0 && x > pp.TopicScoreCap, pp.TopicScoreCap, x)
+
+// Sum over a finite set of topics of a per-topic term (uninterpreted, characterised by the two
+// usual axioms; the loop invariant of score() is "score == tsum(visited)").
+//@ spec fn tsum(s mset[string], f mmap[string]real) real
+//@ axiom tsum-empty: forall f mmap[string]real :: tsum(emptyset(string), f) == 0.0
+//@ axiom tsum-add: forall s mset[string], f mmap[string]real, t string :: !s[t] ==> tsum(setadd(s, t), f) == tsum(s, f) + f[t]
+
+// What TopicScoreParams.validate guarantees for an accepted topic parameter set and score()
+// relies on: a non-zero time-in-mesh weight comes with a positive quantum.
+//@ spec fn usableTopicParams(tp *TopicScoreParams) bool = tp != nil && (tp.TimeInMeshWeight != 0.0 ==> tp.TimeInMeshQuantum > 0)
+
+// score(p) equals the v1.1 scoring function of the peer's counters, and never fails for
+// parameters the library accepts.
+//@ func (*peerScore).score
+//@   property C10
+//@   safe
+//@   dynpure AppSpecificScore
+//@   requires params: ps.params != nil && (forall t string :: t in ps.params.Topics ==> usableTopicParams(ps.params.Topics[t]))
+//@   requires stats: forall q string :: q in ps.peerStats ==> ps.peerStats[q] != nil && (forall t string :: t in ps.peerStats[q].topics ==> ps.peerStats[q].topics[t] != nil)
+//@   let term(t string) real = ite(t in ps.params.Topics, topicTerm(ps.peerStats[p].topics[t], ps.params.Topics[t]), 0.0)
+//@   let termf() mmap[string]real
+//@   requires termf-def: forall t string :: termf()[t] == term(t)
+//@   noframe
+//@   loop 1 invariant sum: score == tsum($visited, termf()) && scoreStable(ps, p)
+//@   ensures unknown-peer: !old(p in ps.peerStats) ==> result == 0.0
+//@   ensures all-visited: old(p in ps.peerStats) ==> (forall t string :: $visited#1[t] == old(domOf(ps.peerStats[p].topics))[t])
+//@   ensures all-visited-eq: old(p in ps.peerStats) ==> $visited#1 == old(domOf(ps.peerStats[p].topics))
+//@   ensures formula: old(p in ps.peerStats) ==> result == capTopics(tsum(old(domOf(ps.peerStats[p].topics)), termf()), ps.params) +
+//@        lastret(dyn:AppSpecificScore) * old(ps.params.AppSpecificWeight) +
+//@        lastret((*peerScore).ipColocationFactor) * old(ps.params.IPColocationFactorWeight) + old(p7(ps.peerStats[p], ps.params))
+//@   ensures app-score-of-peer: old(p in ps.peerStats) ==> lastarg(dyn:AppSpecificScore, 0) == p && lastarg((*peerScore).ipColocationFactor, 1) == p
+
+//@ spec fn scoreStable(ps *peerScore, p string) bool = ps.params == old(ps.params) && ps.peerStats == old(ps.peerStats) && pstats == old(ps.peerStats[p]) &&
+//@      pstats.topics == old(ps.peerStats[p].topics) && domOf(pstats.topics) == old(domOf(ps.peerStats[p].topics)) &&
+//@      (forall t string :: pstats.topics[t] == old(ps.peerStats[p].topics[t])) &&
+//@      (forall t string :: (t in ps.params.Topics) == old(t in ps.params.Topics) && ps.params.Topics[t] == old(ps.params.Topics[t])) &&
+//@      (forall t string :: t in ps.params.Topics ==> usableTopicParams(ps.params.Topics[t])) &&
+//@      (forall t string :: t in pstats.topics ==> pstats.topics[t] != nil) &&
+//@      (forall t string :: term(t) == ite(t in ps.params.Topics, topicTerm(pstats.topics[t], ps.params.Topics[t]), 0.0))
+
+// ---- parameter validation: what an accepted parameter set guarantees ----
+
+//@ func (*TopicScoreParams).validateTimeInMeshParams
+//@   property C10
+//@   noframe
+//@   ensures accepted: result == nil ==> (p.SkipAtomicValidation && p.TimeInMeshWeight == 0.0 && p.TimeInMeshQuantum == 0 && p.TimeInMeshCap == 0.0) ||
+//@        (p.TimeInMeshQuantum != 0 && p.TimeInMeshWeight >= 0.0 && (p.TimeInMeshWeight != 0.0 ==> p.TimeInMeshQuantum > 0 && p.TimeInMeshCap > 0.0))
+//@   ensures usable: result == nil ==> (p.TimeInMeshWeight != 0.0 ==> p.TimeInMeshQuantum > 0) && p.TimeInMeshWeight >= 0.0
+
+//@ func (*TopicScoreParams).validateMessageDeliveryParams
+//@   property C10
+//@   noframe
+//@   ensures accepted: result == nil ==> p.FirstMessageDeliveriesWeight >= 0.0 &&
+//@        (p.FirstMessageDeliveriesWeight != 0.0 ==> p.FirstMessageDeliveriesDecay > 0.0 && p.FirstMessageDeliveriesDecay < 1.0 && p.FirstMessageDeliveriesCap > 0.0)
+
+//@ func (*TopicScoreParams).validateMeshMessageDeliveryParams
+//@   property C10
+//@   noframe
+//@   ensures accepted: result == nil ==> p.MeshMessageDeliveriesWeight <= 0.0 &&
+//@        (p.MeshMessageDeliveriesWeight != 0.0 ==> p.MeshMessageDeliveriesDecay > 0.0 && p.MeshMessageDeliveriesDecay < 1.0 &&
+//@         p.MeshMessageDeliveriesCap > 0.0 && p.MeshMessageDeliveriesThreshold > 0.0 && p.MeshMessageDeliveriesActivation >= 1000000000)
+
+//@ func (*TopicScoreParams).validateMessageFailurePenaltyParams
+//@   property C10
+//@   noframe
+//@   ensures accepted: result == nil ==> p.MeshFailurePenaltyWeight <= 0.0 &&
+//@        (p.MeshFailurePenaltyWeight != 0.0 ==> p.MeshFailurePenaltyDecay > 0.0 && p.MeshFailurePenaltyDecay < 1.0)
+
+//@ func (*TopicScoreParams).validateInvalidMessageDeliveryParams
+//@   property C10
+//@   noframe
+//@   ensures accepted: result == nil ==> p.InvalidMessageDeliveriesWeight <= 0.0 &&
+//@        (p.InvalidMessageDeliveriesWeight != 0.0 ==> p.InvalidMessageDeliveriesDecay > 0.0 && p.InvalidMessageDeliveriesDecay < 1.0)
+
+// An accepted topic parameter set: non-negative topic weight, reward weights >= 0, penalty
+// weights <= 0 (so penalty components only ever lower the score), and usable for score().
+//@ func (*TopicScoreParams).validate
+//@   property C10
+//@   noframe
+//@   ensures accepted: result == nil ==> p.TopicWeight >= 0.0 && p.TimeInMeshWeight >= 0.0 && p.FirstMessageDeliveriesWeight >= 0.0 &&
+//@        p.MeshMessageDeliveriesWeight <= 0.0 && p.MeshFailurePenaltyWeight <= 0.0 && p.InvalidMessageDeliveriesWeight <= 0.0 &&
+//@        (p.TimeInMeshWeight != 0.0 ==> p.TimeInMeshQuantum > 0)
